@@ -6,6 +6,10 @@ mod eventfd_poller;
 mod external_op_tracker;
 mod handler_manager;
 mod internal_op_tracker;
+#[cfg(rzmq_verif)]
+pub(crate) mod verif_internal_op_tracker {
+  pub(crate) use super::internal_op_tracker::*;
+}
 mod main_loop;
 mod multishot_reader;
 pub(crate) mod observability;
